@@ -212,6 +212,26 @@ def history_events():
                'tag': 'ok' if ok else 'raise:' + why, 'case': {'ps0': [], 'ps': [], 'text': text, 'opts': {}, 'how': 'history'}}
 
 
+def unusual_default_events():
+    """bind_callsig / sort_callsigs with a default VALUE that has an unusual == (equal to everything, no truth value, raising): a parameter has a
+    default or it has not, whatever the value says when compared"""
+    from sigtools import support, specifiers
+    for mode in ('anyeq', 'notruth', 'raises', 'never'):
+        e = {'tid': 'unusual-default/' + mode, 'op': 'roundtrip', 'how': 'bind_callsig', 'want': [], 'got': [], 'retwant': 0, 'retgot': 0, 'upto_kwo_order': False,
+             'case': {'ps0': [], 'ps': [], 'text': 'a, b=D', 'opts': {}, 'how': 'unusual-default', 'mode': mode}}
+        try:
+            D = absig.Unusual(mode)
+            fn = support.f('a, b=D', globals={'D': D})
+            sig = specifiers.signature(fn)
+            got = support.bind_callsig(sig, (1,), {})
+            valid, invalid = support.sort_callsigs(sig, [((1,), {}), ((), {})])
+            ok = got.get('a') == 1 and got.get('b') is D and len(valid) == 1 and len(invalid) == 1
+            e['tag'] = 'ok' if ok else 'raise:WrongAnswer'
+        except Exception as ex:  # noqa
+            e['tag'] = 'raise:' + type(ex).__name__
+        yield e
+
+
 def value_text_events():
     """func_from_sig on real signatures whose default VALUES print with a comma or with ' -> ' (known finding: the text is split naively)"""
     import inspect
@@ -248,6 +268,8 @@ def gen_for(U, n, seed):
             for e in value_text_events():
                 yield e
             for e in history_events():
+                yield e
+            for e in unusual_default_events():
                 yield e
     return gen
 
